@@ -134,7 +134,10 @@ Shapes(X) ==
   \cup {ListE(<<X>>), ListE(<<a, X>>), ListE(<<Spread(X)>>)}
   \cup {RecE(<<EStatic("k", X)>>), RecE(<<EDyn(X, a)>>), RecE(<<EStatic("k", a), ESpread(X)>>)}
 Leaves == {a, Num(1), StrLit("s", FALSE), StrLit("two\nlines", FALSE), StrLit("cr\r\nlf  x", FALSE), StrLit("say \"hi\"", TRUE), StrLit("it's", FALSE), StrLit("a\\b", FALSE),
-           BoolL(TRUE), NullL, InRef("k"), ListE(<<>>), RecE(<<>>), RecE(<<EShort("a")>>)}
+           BoolL(TRUE), NullL, InRef("k"), ListE(<<>>), RecE(<<>>), RecE(<<EShort("a")>>),
+           \* entries whose value is the name the key spells: `a: a` is not the shorthand `a` (and `inf: inf` even evaluates differently)
+           RecE(<<EStatic("a", a)>>), RecE(<<EStatic("inf", Id("inf"))>>),
+           RecE(<<EStatic("a", a), EStatic("b", b), EShort("c"), EStatic("f", f), EStatic("x", Num(1))>>)}
            \cup {RecE(<<EStatic(k, a)>>) : k \in {"via", "into", "where", "inputs", "constants", "sum", "inf", "x1", "_"} \cup QuotedKeys}
 T1 == UNION {Shapes(lf) : lf \in {a}}
 T1all == UNION {Shapes(lf) : lf \in Leaves}
